@@ -285,10 +285,10 @@ func checkC24(c *Ctx, r *Report) {
 					continue
 				}
 				// ensureTopic inside getPartitionLog is covered by the getPartitionLog sink itself
-				if strings.HasSuffix(sk.callee, "ensureTopic") && strings.HasPrefix(fn.Name(), "getPartitionLog") {
+				if strings.HasSuffix(sk.callee, "ensureTopic") && strings.HasPrefix(shortName(fn), "getPartitionLog") {
 					continue
 				}
-				if strings.HasSuffix(sk.callee, "Store).CreateTopic") && fn.Name() == "ensureTopic" {
+				if strings.HasSuffix(sk.callee, "Store).CreateTopic") && shortName(fn) == "ensureTopic" {
 					continue // ensureTopic's own call sites are sinks
 				}
 				nSinks++
